@@ -237,8 +237,9 @@ def r4(c):
          '%d exits, %d inside the two arms' % (len(ex), len(covered)), loc_of(b))
     c.ob('Handler->verdict', h_ok, "the Handler arm returns check_authorization's result unchanged",
          'exits: %s' % [(x['kind'], repr(x.get('sem'))) for x in ex], chk.loc())
+    pa = q.pinned_args(b, chk, ['handler', 'unit_id', 'request', 'role'])
     for i, nm in ((1, 'unit_id'), (2, 'request')):
-        s = q.sem(b, chk.args[i])
+        s = q.sem(b, pa[nm]) if pa[nm] is not None else q.Sem('other')
         c.ob('check_authorization/arg-%s' % nm, q.sem_is_name(b, s, nm), '%s passed through unchanged' % nm, repr(s), chk.loc())
     def stored(o, idx):
         s = q.sem(b, o)
@@ -246,9 +247,9 @@ def r4(c):
             s = q.sem(b, s.cs.args[0])
         pj = ''.join(s.proj)
         return q.sem_is_name(b, s, 'self') and ':Handler' in pj and ('field:%d:' % idx) in pj, s
-    okr, s = stored(chk.args[3], 1)
+    okr, s = stored(pa['role'], 1) if pa['role'] is not None else (False, None)
     c.ob('check_authorization/role', okr, 'role is the string stored in AuthorizationType::Handler (field 1)', repr(s), chk.loc())
-    okh, s = stored(chk.args[0], 0)
+    okh, s = stored(pa['handler'], 0) if pa['handler'] is not None else (False, None)
     c.ob('check_authorization/handler', okh, 'handler is the one stored in AuthorizationType::Handler (field 0)', repr(s), chk.loc())
     c.ob('callers', sorted({P.logical_name(cs.body) for cs in P.callers(CHECK_AUTH)}) == [IS_AUTH],
          'check_authorization is called only from is_authorized', str(sorted({P.logical_name(cs.body) for cs in P.callers(CHECK_AUTH)})))
